@@ -67,8 +67,8 @@ def canon(pool_objs):
                 if isinstance(v, ElementList):
                     ld = _d(v)
                     rec.append(('children.list', tuple(ref(c) for c in ld.get('list', ()))))
-                    rec.append(('children.indexes', tuple(sorted((n, tuple(ref(c) for c in cs)) for n, cs in ld.get('indexes', {}).items() if cs))))
-                    rec.append(('children.traversal', tuple(sorted((n, tuple(ref(c) for c in cs)) for n, cs in ld.get('traversal_indexes', {}).items() if cs))))
+                    rec.append(('children.indexes', tuple(sorted(((str(n), tuple(ref(c) for c in cs)) for n, cs in ld.get('indexes', {}).items() if cs), key=lambda t: t[0]))))
+                    rec.append(('children.traversal', tuple(sorted(((str(n), tuple(ref(c) for c in cs)) for n, cs in ld.get('traversal_indexes', {}).items() if cs), key=lambda t: t[0]))))
                     rec.append(('children.element', ref(ld.get('element'))))
                 else:
                     rec.append(('children', repr(type(v))))
